@@ -95,6 +95,72 @@ class Check:
     required: List[str] = field(default_factory=list)  # classes that must be hit
     rule: str = ''
     exhaustive: bool = False
+    pristine: bool = False   # fork a server for answers from processes without history (before the first case runs)
+
+
+class Pristine:
+    """answers computed in processes that have executed nothing before.  A server process is forked when the task (or replay) starts --
+    the process has only imported modules at that point -- and forks a grandchild for every question; the grandchild computes the
+    answer and exits.  What the code under test remembers from earlier questions therefore cannot reach these answers."""
+
+    def __init__(self):
+        import multiprocessing as mp
+        ctx = mp.get_context('fork')
+        self.conn, child = ctx.Pipe()
+        self.proc = ctx.Process(target=Pristine._serve, args=(child,), daemon=True)
+        self.proc.start()
+        child.close()
+        self.calls = 0
+
+    @staticmethod
+    def _serve(conn):
+        import importlib
+        import pickle
+        while True:
+            try:
+                msg = conn.recv()
+            except (EOFError, OSError):
+                break
+            if msg is None:
+                break
+            r, w = os.pipe()
+            pid = os.fork()
+            if pid == 0:
+                try:
+                    os.close(r)
+                    try:
+                        fn = getattr(importlib.import_module(msg[0]), msg[1])
+                        out = ('ok', fn(*msg[2]))
+                    except BaseException as e:  # noqa: BLE001
+                        out = ('err', f'{type(e).__name__}: {e}')
+                    with os.fdopen(w, 'wb') as f:
+                        f.write(pickle.dumps(out))
+                finally:
+                    os._exit(0)
+            os.close(w)
+            with os.fdopen(r, 'rb') as f:
+                data = f.read()
+            os.waitpid(pid, 0)
+            try:
+                conn.send(pickle.loads(data) if data else ('err', 'no answer from the pristine process'))
+            except (EOFError, OSError):
+                break
+        os._exit(0)
+
+    def call(self, module, name, *args):
+        self.calls += 1
+        self.conn.send((module, name, args))
+        if not self.conn.poll(600):
+            raise HarnessError('pristine process did not answer within 600 s')
+        kind, val = self.conn.recv()
+        return kind, val
+
+    def close(self):
+        try:
+            self.conn.send(None)
+            self.conn.close()
+        except Exception:  # noqa: BLE001
+            pass
 
 
 class Ctx:
@@ -109,6 +175,7 @@ class Ctx:
         self.ev = Ev()
         self.findings = findings
         self.replaying = False
+        self.pristine = None
 
     def fail(self, msg, sig=None):
         """report a failure of the property; returns (does not raise) iff it matches an
@@ -173,6 +240,8 @@ def run_task(prop, check: Check, check_index, tier, seed, shard, nshards, findin
     from hypothesis import given
 
     ctx = Ctx(prop, check.name, tier, seed, shard, findings)
+    if check.pristine:
+        ctx.pristine = Pristine()
     last = {}
     out = {'check': check.name, 'shard': shard, 'violation': None, 'error': None}
     t0 = time.time()
@@ -243,6 +312,8 @@ def replay_case(prop, check: Check, case, findings, shard=0):
     """run the oracle on a stored case, bypassing Hypothesis.  returns (ok, message, ctx)"""
     ctx = Ctx(prop, check.name, 'quick', 0, shard, findings)
     ctx.replaying = True
+    if check.pristine:
+        ctx.pristine = Pristine()
     try:
         check.oracle(case, ctx)
     except _KnownSkip:
